@@ -160,7 +160,7 @@ def run_real(case: dict) -> list[str]:
             except StopIteration:
                 return
             except StreamProtocolParseError as e:
-                lines.append(sd.err_line(e))
+                keep.add_err(e, lines)
             else:
                 keep.add(p, lines)
             arg = None
